@@ -264,6 +264,10 @@ let net_go () =
 
 let net_obs (f : string list) =
   match f with
+  | ["pfxsync"; router; known; latest; mine; theirs] ->
+      (* log replication at the daemon level: once Known equals the remote publisher's number we hold exactly its set *)
+      if known = latest && mine <> theirs then
+        oracle "net-caught-up-prefix-set-differs" (Printf.sprintf "router %s known=%s: we hold %s, it announces %s" router known mine theirs)
   | "hashcollision" :: a :: b :: _ -> oracle "assumption-name-hash-collision" (Printf.sprintf "%s and %s have the same Name.Hash(): tables keyed by the hash conflate them" a b)
   | ["cmds"; l] ->
       let items = if l = "-" then [] else String.split_on_char ',' l in
